@@ -31,7 +31,7 @@ func checkC01(r *harness.Run) harness.Coverage {
 		maxW, depth = 6, 2
 	}
 	g := univ.NewGen(univ.CoreFragment())
-	exprs := buildExprs(g, maxW, nil)
+	var exprs []exprCase
 	keys := []string{"a", "b", ""}
 	if depth == 2 {
 		keys = []string{"a", "b"}
@@ -41,7 +41,7 @@ func checkC01(r *harness.Run) harness.Coverage {
 		docs = append(docs, univ.Values(1, 2, univ.Js(univ.A6...), []string{"a", "b", ""})...)
 	}
 	docs = append(docs, collisionDocs...)
-	st := conform(r, exprs, docs, conformOpts{})
+	st, nGen, samp := conformGen(r, g, maxW, nil, docs, conformOpts{})
 	// nested multi-select family: every tree of lists (1-3 members) and hashes (1-2 members) over the leaves
 	// a, b, c up to depth 3 with at most 3 (thorough: 4) leaves, e.g. [[a],[b,[c]]] - far beyond the weight
 	// bound of the sentence enumeration, but the place where a parser that builds member lists shows
@@ -77,8 +77,8 @@ func checkC01(r *harness.Run) harness.Coverage {
 	exprs = append(exprs, numerals...)
 	r.Note("nested_multiselect_trees", len(nested))
 	exprs = append(exprs, nested...)
-	finishConform(r, st, len(exprs), len(docs))
-	sampleExprs(r, exprs, docs)
+	finishConform(r, st, nGen+len(exprs), len(docs))
+	sampleExprs(r, samp, docs)
 	return harness.Coverage{Exhaustive: true, Bounds: map[string]interface{}{"expression_weight": maxW, "document_depth": depth, "array_width": 2}, Outcomes: distinctOutcomes(st)}
 }
 
